@@ -165,7 +165,105 @@ func (f *Flow) Cond(b *cfg.Block) (cond ast.Expr, isCase bool) {
 			return e, true
 		}
 	}
-	return e, false
+	return f.normCond(e, 0), false
+}
+
+// normCond replaces a named boolean (`inTransaction := s.delivery != nil; if inTransaction {`) by its defining
+// condition, recursively through !, && and ||. A name is expanded only if it is defined exactly once, the
+// definition precedes the use, no local it mentions is reassigned in between, and – when it reads a field – no
+// call or store that could change that field lies in between. The synthetic !, &&, || nodes carry no type
+// information; their leaves are the original, typed nodes.
+func (f *Flow) normCond(e ast.Expr, depth int) ast.Expr {
+	if f.Body == nil || depth > 4 {
+		return e
+	}
+	switch x := e.(type) {
+	case *ast.ParenExpr:
+		return f.normCond(x.X, depth)
+	case *ast.UnaryExpr:
+		if x.Op == token.NOT {
+			if in := f.normCond(x.X, depth); in != x.X {
+				return &ast.UnaryExpr{OpPos: x.OpPos, Op: token.NOT, X: in}
+			}
+		}
+	case *ast.BinaryExpr:
+		if x.Op == token.LAND || x.Op == token.LOR {
+			a, b := f.normCond(x.X, depth), f.normCond(x.Y, depth)
+			if a != x.X || b != x.Y {
+				return &ast.BinaryExpr{X: a, OpPos: x.OpPos, Op: x.Op, Y: b}
+			}
+		}
+	case *ast.Ident:
+		o, ok := f.Info.Uses[x].(*types.Var)
+		if !ok || o.IsField() || !posIn(f.Body, o.Pos()) || !isBoolType(o.Type()) {
+			return e
+		}
+		def, n := localDef(f.Info, f.Body, o)
+		if n != 1 || def == nil || def.End() >= x.Pos() {
+			return e
+		}
+		if tv, ok := f.Info.Types[def]; !ok || tv.Value != nil {
+			return e
+		}
+		if tv := f.Info.Types[def]; !isBoolType(tv.Type) {
+			return e
+		}
+		switch d := ast.Unparen(def).(type) {
+		case *ast.BinaryExpr:
+		case *ast.UnaryExpr:
+			if d.Op != token.NOT {
+				return e
+			}
+		default:
+			return e // results of calls, copies of other variables: values the rules track by variable
+		}
+		stable := true
+		readsField := false
+		ast.Inspect(def, func(n ast.Node) bool {
+			switch y := n.(type) {
+			case *ast.Ident:
+				if dv, ok := f.Info.Uses[y].(*types.Var); ok && !dv.IsField() && assignedBetween(f.Info, f.Body, dv, def.End(), x.Pos()) {
+					stable = false
+				}
+			case *ast.SelectorExpr:
+				if fieldOf(f.Info, y) != nil {
+					readsField = true
+				}
+			case *ast.CallExpr:
+				if tv, ok := f.Info.Types[y.Fun]; !(ok && (tv.IsType() || tv.IsBuiltin())) {
+					readsField = true // result of a call: treat like shared state
+				}
+			}
+			return true
+		})
+		if stable && readsField {
+			// any call or field store between definition and use may change what was read
+			ast.Inspect(f.Body, func(n ast.Node) bool {
+				if n == nil || !stable {
+					return false
+				}
+				if n.Pos() > def.End() && n.Pos() < x.Pos() {
+					switch y := n.(type) {
+					case *ast.CallExpr:
+						if tv, ok := f.Info.Types[y.Fun]; !(ok && (tv.IsType() || tv.IsBuiltin())) {
+							stable = false
+						}
+					case *ast.AssignStmt:
+						for _, l := range y.Lhs {
+							if fieldOf(f.Info, l) != nil {
+								stable = false
+							}
+						}
+					}
+				}
+				return true
+			})
+		}
+		if stable {
+			return f.normCond(ast.Unparen(def), depth+1)
+		}
+	}
+	return e
 }
 
 // Query is a path query over points.
